@@ -3,7 +3,9 @@ package props
 import (
 	"fmt"
 
+	"github.com/contiv/libOpenflow/common"
 	of "github.com/contiv/libOpenflow/openflow13"
+	"github.com/contiv/libOpenflow/protocol"
 
 	"vh/fw"
 	"vh/gen"
@@ -96,6 +98,124 @@ func apiNoise(r *prng.R, n int) {
 					a.MarshalBinary()
 					flipFields(a, seed)
 				}
+			}
+		})
+	}
+}
+
+// errorNoise is other use of the library that legitimately FAILS: n PRNG-chosen calls that return errors - a DHCP
+// message with an option too long to marshal, encodes into destinations that are too short, decoders on truncated or
+// inconsistent bytes, the parser on frames it must reject, unknown names and unrepresentable values. Error paths are
+// where pooled or cached resources are released twice or left half-updated; what unrelated later (or concurrent) calls
+// compute must not depend on them.
+func errorNoise(r *prng.R, n int) {
+	for i := 0; i < n; i++ {
+		k := r.Intn(10)
+		seed := r.U64()
+		fw.Recover(func() {
+			rr := prng.New(seed)
+			switch k {
+			case 0:
+				// an option of 254..400 data bytes cannot be marshalled: Read fails half-way
+				if d, err := protocol.NewDHCPOffer(uint32(rr.U32()), []byte{2, 8, 8, byte(seed), 3, 3}); err == nil {
+					opts := []protocol.DHCPOption{protocol.DHCPNewOption(byte(rr.Range(1, 200)), rr.Bytes(rr.Range(254, 400)))}
+					if rr.Bool() {
+						d.Options = append(opts, d.Options...)
+					} else {
+						d.Options = append(d.Options, opts...)
+					}
+					d.Read(make([]byte, 2048))
+					d.Len()
+				}
+			case 1:
+				if d, err := protocol.NewDHCPRequest(uint32(rr.U32()), []byte{2, 7, 7, byte(seed), 4, 4}); err == nil {
+					d.Read(make([]byte, rr.Pick(0, 1, 60, 235, 239, 240, 243)))
+				}
+			case 2:
+				if d, err := protocol.NewDHCPAck(uint32(rr.U32()), []byte{2, 6, 6, byte(seed), 5, 5}); err == nil {
+					buf := make([]byte, 1024)
+					if m, err := d.Read(buf); err == nil && m > 10 {
+						cut := buf[:rr.Range(0, m-1)]
+						new(protocol.DHCP).Write(cut)
+						if len(cut) > 241 {
+							cut[len(cut)-1] = 0xfe // an option length running past the end
+							protocol.DHCPParseOptions(cut[240:])
+						}
+					}
+				}
+			case 3:
+				// the parser on frames it must reject
+				frames := [][]byte{
+					{4, 0}, {4, 0, 0, 8}, {4, 99, 0, 8, 0, 0, 0, 1}, {4, 14, 0, 56, 0, 0, 0, 2, 1, 2, 3},
+					{4, 10, 0, 20, 0, 0, 0, 3, 0, 0, 0, 1, 0, 40, 0, 0, 0, 0, 0, 0}, {4, 19, 0, 17, 0, 0, 0, 4, 0, 1, 0, 0, 0, 0, 0, 0, 9},
+					{4, 4, 0, 16, 0, 0, 0, 5, 0, 0, 0x23, 0x20, 0, 0, 0, 99}, {4, 0, 0, 16, 0, 0, 0, 6, 0, 1, 0, 3, 0, 0, 0, 0},
+				}
+				of.Parse(append([]byte(nil), frames[rr.Intn(len(frames))]...))
+			case 4:
+				// packet decoders on truncated or inconsistent bytes
+				junk := rr.Bytes(rr.Pick(0, 1, 7, 13, 14, 17, 19, 20, 27, 39))
+				switch rr.Intn(8) {
+				case 0:
+					new(protocol.Ethernet).UnmarshalBinary(junk)
+				case 1:
+					if len(junk) > 0 {
+						junk[0] = 0x43 // IHL 3
+					}
+					new(protocol.IPv4).UnmarshalBinary(junk)
+				case 2:
+					new(protocol.IPv6).UnmarshalBinary(junk)
+				case 3:
+					new(protocol.ARP).UnmarshalBinary(junk)
+				case 4:
+					new(protocol.UDP).UnmarshalBinary(junk[:len(junk)%8])
+				case 5:
+					new(protocol.TCP).UnmarshalBinary(junk[:len(junk)%20])
+				case 6:
+					new(protocol.IGMPv3Query).UnmarshalBinary(junk[:len(junk)%12])
+				default:
+					new(protocol.ICMP).UnmarshalBinary(junk[:len(junk)%4])
+				}
+			case 5:
+				of.FindFieldHeaderByName(fmt.Sprintf("NXM_NX_NOSUCH%d", rr.Intn(1000)), rr.Bool())
+				of.NewMatchField[int64, int]("NXM_NX_REG0", -int64(rr.Range(1, 1000)))
+				of.NewMatchField[uint64, int]("NXM_NX_REG1", uint64(1)<<40)
+				of.NewMatchField[uint64, int]("NXM_NX_REG2", 1, rr.Pick(31, 32, 40), rr.Pick(2, 8, 64))
+				of.NewMatchField[uint64, int]("OXM_OF_NOSUCH", 1)
+			case 6:
+				// element decoders on bytes that end early or name an unknown kind
+				junk := rr.Bytes(rr.Pick(0, 1, 3, 4, 7, 8, 12, 15))
+				switch rr.Intn(4) {
+				case 0:
+					of.DecodeAction(junk)
+				case 1:
+					of.DecodeInstr(junk)
+				case 2:
+					new(of.MatchField).UnmarshalBinary(junk)
+				default:
+					new(of.Match).UnmarshalBinary(junk)
+				}
+			case 7:
+				// messages decoded from bytes cut inside them
+				if m := of.NewFlowMod(); m != nil {
+					m.Match.AddField(*of.NewInPortField(uint32(rr.U32())))
+					if b, err := m.MarshalBinary(); err == nil && len(b) > 9 {
+						cut := append([]byte(nil), b[:rr.Range(8, len(b)-1)]...)
+						of.Parse(cut)
+						new(of.FlowMod).UnmarshalBinary(cut)
+					}
+				}
+			case 8:
+				h := new(common.Hello)
+				h.UnmarshalBinary([]byte{4, 0, 0, 16, 0, 0, 0, 1, 0, 1, 0, 12, 0, 0})
+				var hd common.Header
+				hd.UnmarshalBinary(rr.Bytes(rr.Intn(8)))
+			default:
+				// encodes into destinations that are too short
+				if o, err := protocol.NewDHCPOffer(uint32(rr.U32())+77, []byte{2, 9, 9, byte(seed), 7, 7}); err == nil {
+					o.Read(make([]byte, 60+rr.Intn(100)))
+				}
+				l := protocol.LLDP{}
+				l.Read(make([]byte, rr.Intn(6)))
 			}
 		})
 	}
